@@ -3,13 +3,15 @@ Props/C14.lean — property C14: group balancers assign every partition of every
 one subscriber, evenly.  Property theorems only; helper lemmas live in Lemmas/GroupBalancer.lean.
 
 Model: Model/GroupBalancer.lean (follows groupbalancer.go).  Reference predicates: Spec/GroupAssign.lean.
-Hypotheses (`WellFormed`): member ids are distinct ("a set of members") and a member lists a topic at most
-once (a subscription is a set of topics).  No bound on the number of members, topics or partitions; partition
+Hypothesis (`WellFormed`): member ids are distinct ("a set of members").  A member's topic list may repeat a topic
+(it is user input: `ConsumerGroupConfig.Topics` / `ReaderConfig.GroupTopics` are not de-duplicated by `Validate`); the
+member subscribes to `t` iff `t` occurs in its list — see §5 and finding C14-D30.  No bound on the number of members, topics or partitions; partition
 ids are arbitrary integers and may even repeat (cover is stated on multisets).
 -/
 import KafkaVerif.Lemmas.GroupBalancer
 import KafkaVerif.Lemmas.RackAffinity
 import KafkaVerif.Gen.GroupBalancerSel
+import KafkaVerif.Lemmas.GroupGlue
 
 namespace KV.C14
 open KV.GroupBalancer KV.Spec.GroupAssign
@@ -58,16 +60,24 @@ theorem rack_arith_regenerated (P M L C T lo rem : Nat) :
     Gen.GroupBalancer.cap_leftover_len_consumers (leftover := lo) (len_consumers := C) = decide (lo > C) :=
   ⟨rfl, rfl, rfl, rfl, rfl, rfl⟩
 
+/-- structure of the source that the models rely on: both member-by-topic loops skip repeated topics through
+`topicListedBefore` (modelled by `firstListings`), and `makeSyncGroupRequestV0` allocates the per-member map inside
+the loop over the members (modelled by `syncRequest` calling `toTopics32` afresh per member) -/
+theorem structure_regenerated :
+    Gen.GroupBalancer.topicGuardSites = ["findMembersByTopic", "RackAffinityGroupBalancer.AssignGroups"] ∧
+    Gen.GroupBalancer.topicListedBeforeIsPrefixSearch = true ∧
+    Gen.GroupBalancer.topics32FreshPerMember = true := by decide
+
 /-! ## 1. Range -/
 
 /-- Range hands a subscriber the contiguous run `[i·P/M, (i+1)·P/M)` of the listed partitions, `i` its rank by id -/
 theorem range_contiguous (ms : List Member) (ps : List Part) (h : WellFormed ms) (t : Nat) :
     RangeShapeAt ms ps (rangeAssign ms ps) t := by
-  obtain ⟨hd, ho⟩ := wf_split h
+  have hd := wf_split h
   intro m hm
-  have hp := findMembers_perm ms t ho
+  have hp := findMembers_perm ms t
   obtain ⟨he, _⟩ := entry_of_subscriber (rangeSel (findMembersByTopic ms t).length (findPartitions t ps).length)
-    (findPartitions t ps) ms t hd ho m hm
+    (findPartitions t ps) ms t hd m hm
   unfold rangeAssign rangeTopic
   rw [he, rangeSel_eq, pick_range _ _ _ 0 (Nat.zero_le _), findPartitions_eq, hp.length_eq]
   rfl
@@ -75,29 +85,29 @@ theorem range_contiguous (ms : List Member) (ps : List Part) (h : WellFormed ms)
 /-- each listed partition of a subscribed topic goes to exactly one subscriber -/
 theorem range_cover (ms : List Member) (ps : List Part) (h : WellFormed ms) (t : Nat)
     (hs : subscribers ms t ≠ []) : CoverAt ms ps (rangeAssign ms ps) t := by
-  obtain ⟨hd, ho⟩ := wf_split h
-  have hp := findMembers_perm ms t ho
+  have hd := wf_split h
+  have hp := findMembers_perm ms t
   have hM : 0 < (findMembersByTopic ms t).length := by
     rw [hp.length_eq]; exact List.length_pos_iff.mpr hs
   unfold CoverAt rangeAssign rangeTopic
-  refine (entries_perm _ _ ms t hd ho).trans ?_
+  refine (entries_perm _ _ ms t hd).trans ?_
   rw [range_concat, findPartitions_eq]
   simp [Nat.mul_div_cancel_left _ hM]
 
 /-- nothing goes to anyone who does not subscribe to the topic (in particular: no entry for unsubscribed topics) -/
 theorem range_only_subscribers (ms : List Member) (ps : List Part) (h : WellFormed ms) (t id : Nat) :
     OnlySubscribersAt ms (rangeAssign ms ps) t id :=
-  fun hid => entry_of_other _ _ ms t id h.2 hid
+  fun hid => entry_of_other _ _ ms t id hid
 
 /-- the load of every subscriber is ⌊P/M⌋ or ⌊P/M⌋+1 -/
 theorem range_load (ms : List Member) (ps : List Part) (h : WellFormed ms) (t : Nat) (m : Member)
     (hm : m ∈ subscribers ms t) :
     (partsOf t ps).length / (subscribers ms t).length ≤ (rangeAssign ms ps t m.id).length ∧
     (rangeAssign ms ps t m.id).length ≤ (partsOf t ps).length / (subscribers ms t).length + 1 := by
-  obtain ⟨hd, ho⟩ := wf_split h
-  have hp := findMembers_perm ms t ho
+  have hd := wf_split h
+  have hp := findMembers_perm ms t
   obtain ⟨he, hr⟩ := entry_of_subscriber (rangeSel (findMembersByTopic ms t).length (findPartitions t ps).length)
-    (findPartitions t ps) ms t hd ho m hm
+    (findPartitions t ps) ms t hd m hm
   have hM : 0 < (subscribers ms t).length := List.length_pos_iff.mpr (List.ne_nil_of_mem hm)
   unfold rangeAssign rangeTopic
   rw [he, hp.length_eq, range_pick_length _ _ _ hM hr, findPartitions_eq]
@@ -114,27 +124,27 @@ theorem range_balanced (ms : List Member) (ps : List Part) (h : WellFormed ms) (
 
 theorem rr_cover (ms : List Member) (ps : List Part) (h : WellFormed ms) (t : Nat)
     (hs : subscribers ms t ≠ []) : CoverAt ms ps (rrAssign ms ps) t := by
-  obtain ⟨hd, ho⟩ := wf_split h
-  have hp := findMembers_perm ms t ho
+  have hd := wf_split h
+  have hp := findMembers_perm ms t
   have hM : 0 < (findMembersByTopic ms t).length := by
     rw [hp.length_eq]; exact List.length_pos_iff.mpr hs
   unfold CoverAt rrAssign rrTopic
-  refine (entries_perm _ _ ms t hd ho).trans ?_
+  refine (entries_perm _ _ ms t hd).trans ?_
   rw [assignGo_flatMap, findPartitions_eq]
   exact cover_gen _ _ _ 0 (fun j _ _ => rr_exactly_one _ j hM)
 
 theorem rr_only_subscribers (ms : List Member) (ps : List Part) (h : WellFormed ms) (t id : Nat) :
     OnlySubscribersAt ms (rrAssign ms ps) t id :=
-  fun hid => entry_of_other _ _ ms t id h.2 hid
+  fun hid => entry_of_other _ _ ms t id hid
 
 /-- the subscriber of rank `i` holds exactly ⌊P/M⌋ + [i < P mod M] partitions -/
 theorem rr_load (ms : List Member) (ps : List Part) (h : WellFormed ms) (t : Nat) (m : Member)
     (hm : m ∈ subscribers ms t) :
     (rrAssign ms ps t m.id).length = (partsOf t ps).length / (subscribers ms t).length +
       if rank ms t m.id < (partsOf t ps).length % (subscribers ms t).length then 1 else 0 := by
-  obtain ⟨hd, ho⟩ := wf_split h
-  have hp := findMembers_perm ms t ho
-  obtain ⟨he, hr⟩ := entry_of_subscriber (rrSel (findMembersByTopic ms t).length) (findPartitions t ps) ms t hd ho m hm
+  have hd := wf_split h
+  have hp := findMembers_perm ms t
+  obtain ⟨he, hr⟩ := entry_of_subscriber (rrSel (findMembersByTopic ms t).length) (findPartitions t ps) ms t hd m hm
   have hM : 0 < (subscribers ms t).length := List.length_pos_iff.mpr (List.ne_nil_of_mem hm)
   unfold rrAssign rrTopic
   rw [he, hp.length_eq, rr_pick_length0 _ _ hM hr, findPartitions_eq]
@@ -148,10 +158,10 @@ theorem rr_balanced (ms : List Member) (ps : List Part) (h : WellFormed ms) (t :
 /-- RoundRobin hands the subscriber of rank `i` every M-th listed partition starting with the i-th -/
 theorem rr_stride (ms : List Member) (ps : List Part) (h : WellFormed ms) (t : Nat) :
     RRShapeAt ms ps (rrAssign ms ps) t := by
-  obtain ⟨hd, ho⟩ := wf_split h
+  have hd := wf_split h
   intro m hm
-  have hp := findMembers_perm ms t ho
-  obtain ⟨he, _⟩ := entry_of_subscriber (rrSel (findMembersByTopic ms t).length) (findPartitions t ps) ms t hd ho m hm
+  have hp := findMembers_perm ms t
+  obtain ⟨he, _⟩ := entry_of_subscriber (rrSel (findMembersByTopic ms t).length) (findPartitions t ps) ms t hd m hm
   unfold rrAssign rrTopic
   rw [he, pick_rr_stride, findPartitions_eq, hp.length_eq]
 
@@ -215,13 +225,13 @@ theorem rack_topic (ms : List Member) (ps : List Part) (σ₁ σ₂ : Nat → Li
       (∀ m ∈ subscribers ms t, (partsOf t ps).length / (subscribers ms t).length ≤ (collect m.id es).length ∧
         (collect m.id es).length ≤ (partsOf t ps).length / (subscribers ms t).length + 1) ∧
       (∀ id, (∀ m ∈ subscribers ms t, m.id ≠ id) → collect id es = []) := by
-  obtain ⟨hd, ho⟩ := wf_split h
+  have hd := wf_split h
   obtain ⟨es, he, hperm, hload, hother⟩ := rackTopic_spec (subscribers ms t) (partsOfTopic t ps) (σ₁ t) (σ₂ t) hs
     (subscribers_distinct ms t hd) h1.1 h2.1 h2.2
   refine ⟨es, he, ?_, hperm, ?_, hother⟩
   · intro id
     unfold rackAssign
-    rw [appendByTopic_eq_subscribers t ms ho]
+    rw [appendByTopic_eq_subscribers t ms]
     have : (subscribers ms t).length ≠ 0 := fun e => hs (List.length_eq_zero_iff.mp e)
     simp [this, he]
   · have : (partsOf t ps).length = (partsOfTopic t ps).length := by unfold partsOf partsOfTopic; simp
@@ -230,7 +240,7 @@ theorem rack_topic (ms : List Member) (ps : List Part) (σ₁ σ₂ : Nat → Li
 theorem rack_none (ms : List Member) (ps : List Part) (σ₁ σ₂ : Nat → List Nat) (h : WellFormed ms) (t : Nat)
     (hs : subscribers ms t = []) (id : Nat) : rackAssign ms ps σ₁ σ₂ t id = some [] := by
   unfold rackAssign
-  rw [appendByTopic_eq_subscribers t ms h.2, hs]; rfl
+  rw [appendByTopic_eq_subscribers t ms, hs]; rfl
 
 /-- no slice or index expression of `assignTopic` is ever out of range, whatever the map iteration orders -/
 theorem rack_total (ms : List Member) (ps : List Part) (σ₁ σ₂ : Nat → List Nat) (h : WellFormed ms) (t : Nat)
@@ -276,7 +286,7 @@ on members of `z`, whatever the map iteration orders -/
 theorem rack_affinity_bound (ms : List Member) (ps : List Part) (σ₁ σ₂ : Nat → List Nat) (h : WellFormed ms) (t : Nat)
     (h1 : IterOrder ps t (σ₁ t)) (h2 : IterOrder ps t (σ₂ t)) (z : Nat) :
     RackBoundAt ms ps (rackAsg ms ps σ₁ σ₂) t z := by
-  obtain ⟨hd, ho⟩ := wf_split h
+  have hd := wf_split h
   unfold RackBoundAt
   by_cases hs : subscribers ms t = []
   · unfold inRack; rw [hs]; simp
@@ -318,23 +328,166 @@ example : [1, 2, 3].map (rackAssign rkMembers rkParts (fun _ => [0, 1, 2]) (fun 
 example : [1, 2, 3].map (rackAssign rkMembers rkParts (fun _ => [1, 2, 0]) (fun _ => [1, 2, 0]) 0) =
     [some [0, 1], some [3, 4, 5], some [6, 2]] := by decide
 
-/-! ## 5. The hypothesis "a member lists a topic at most once" is needed (of the model, and — the driver's
-outside-the-hypotheses cases show the code behaves the same — of groupbalancer.go): with a repeated topic the
-member is entered twice into `membersByTopic[t]`; Range/RoundRobin then hand it two shares, RackAffinity's last loop
-sees the first share when it reaches the second copy and leaves a partition unassigned. -/
+/-! ## 5. Topic lists with repeats (finding C14-D30, fixed in /repo)
 
-theorem range_balanced_needs_topics_once_counterexample :
-    let ms : List Member := [⟨1, [0, 0], 0⟩, ⟨2, [0], 0⟩]
-    let ps : List Part := (List.range 6).map fun i => ⟨0, Int.ofNat i, 0⟩
-    DistinctIds ms ∧ ¬ TopicsOnce ms ∧ rangeAssign ms ps 0 1 = [0, 1, 2, 3] ∧ rangeAssign ms ps 0 2 = [4, 5] ∧
-      ¬ BalancedAt ms (rangeAssign ms ps) 0 := by decide
+Before the fix a member whose `Topics` repeated a topic was entered twice into `membersByTopic[t]`: Range/RoundRobin
+handed it two shares and RackAffinity's last loop left a partition unassigned.  `pre_fix…` below is the pre-fix first
+loop; the two `_counterexample`s are what it computed (kept as regression witnesses: the driver runs the same inputs
+against the real code, which must now agree with the fixed model), and the theorems of §1–§4 — which no longer have a
+"listed at most once" hypothesis — hold of these inputs. -/
 
-theorem rack_cover_needs_topics_once_counterexample :
+/-- the first loop of `findMembersByTopic` as it was before the fix: one copy per occurrence -/
+def preFixAppendByTopic (t : Nat) : List Member → List Member
+  | [] => []
+  | m :: ms => (m.topics.filter (· == t)).map (fun _ => m) ++ preFixAppendByTopic t ms
+
+def dupMembers : List Member := [⟨1, [0, 0], 0⟩, ⟨2, [0], 0⟩]
+def dupParts : List Part := (List.range 6).map fun i => ⟨0, Int.ofNat i, 0⟩
+
+theorem prefix_range_unbalanced_counterexample :
+    WellFormed dupMembers ∧
+    collect 1 (rangeTopic (sortById (preFixAppendByTopic 0 dupMembers)) (findPartitions 0 dupParts)) = [0, 1, 2, 3] ∧
+    collect 2 (rangeTopic (sortById (preFixAppendByTopic 0 dupMembers)) (findPartitions 0 dupParts)) = [4, 5] := by decide
+
+theorem prefix_rack_loses_partition_counterexample :
     let ms : List Member := [⟨7, [0, 0], 0⟩]
     let ps : List Part := [⟨0, 0, 1⟩, ⟨0, 1, 1⟩]
-    DistinctIds ms ∧ ¬ TopicsOnce ms ∧ IterOrder ps 0 [1] ∧
-      rackAssign ms ps (fun _ => [1]) (fun _ => [1]) 0 7 = some [0] ∧
-      ¬ CoverAt ms ps (rackAsg ms ps (fun _ => [1]) (fun _ => [1])) 0 := by
-  refine ⟨by decide, by decide, ⟨by decide, by decide⟩, by decide, by decide⟩
+    WellFormed ms ∧ IterOrder ps 0 [1] ∧
+      (rackAssignTopic (preFixAppendByTopic 0 ms) (partsOfTopic 0 ps) [1] [1]).map (collect 7) = some [0] := by
+  refine ⟨by decide, ⟨by decide, by decide⟩, by decide⟩
+
+/-- after the fix: same inputs, every partition handed out, evenly -/
+example : rangeAssign dupMembers dupParts 0 1 = [0, 1, 2] ∧ rangeAssign dupMembers dupParts 0 2 = [3, 4, 5] := by decide
+example : rackAssign [⟨7, [0, 0], 0⟩] [⟨0, 0, 1⟩, ⟨0, 1, 1⟩] (fun _ => [1]) (fun _ => [1]) 0 7 = some [0, 1] := by decide
+
+/-! ## 6. The leader glue: what every member RECEIVES is its own entry of the balancer's result
+
+`joinGroup → makeMemberProtocolMetadata → AssignGroups → makeSyncGroupRequestV0 → (coordinator forwards bytes) →
+syncGroup`.  Model: Model/GroupGlue.lean.  `A` is the Go map `GroupMemberAssignments` in whatever order `range`
+yields it, `ρ` the iteration order of the per-member `topics32` map inside `groupAssignment.writeTo`; Go maps have
+distinct keys, which is the only hypothesis. -/
+section Glue
+open KV.GroupGlue
+
+/-- the members the leader's balancer sees are the members' own configurations (topics in listing order, rack) -/
+theorem glue_members (cfgs : List (Nat × List Nat × Nat)) :
+    membersOfJoin (cfgs.map fun c => (c.1, metadataOfConfig c.2.1 c.2.2)) = cfgs := by
+  unfold membersOfJoin metadataOfConfig
+  rw [List.map_map]
+  conv => rhs; rw [← List.map_id cfgs]
+  rfl
+
+/-- decode ∘ encode per member = that member's entry of the assignment map (partition ids as int32), for every
+iteration order of the two maps; a member without an entry receives nothing: no entry leaks between members -/
+theorem glue_preserves (ρ : TopicMap → TopicMap) (hρ : ∀ l, (ρ l).Perm l) (A : Assignments)
+    (hin : ∀ e ∈ A, (keys e.2).Nodup) (id t : Nat) :
+    mapGet t (received ρ A id) =
+      match A.find? (fun e => e.1 == id) with
+      | some e => (mapGet t e.2).map (·.map toInt32)
+      | none => none :=
+  received_get ρ hρ A hin id t
+
+theorem glue_no_leak (ρ : TopicMap → TopicMap) (A : Assignments) (id : Nat) (h : ∀ e ∈ A, e.1 ≠ id) :
+    received ρ A id = [] := by
+  unfold received syncRequest
+  have : (A.map fun e => (e.1, encodeAssignment ρ (toTopics32 e.2))).find? (fun e => e.1 == id) = none := by
+    rw [List.find?_eq_none]
+    intro e he
+    obtain ⟨x, hx, rfl⟩ := List.mem_map.mp he
+    simpa using h x hx
+  rw [this]
+
+/-- the result does not depend on the order in which `range memberAssignments` yields the members -/
+theorem glue_order_independent (ρ ρ' : TopicMap → TopicMap) (hρ : ∀ l, (ρ l).Perm l) (hρ' : ∀ l, (ρ' l).Perm l)
+    (A A' : Assignments) (hp : A.Perm A') (hids : (A.map (·.1)).Nodup) (hin : ∀ e ∈ A, (keys e.2).Nodup) (id t : Nat) :
+    mapGet t (received ρ A id) = mapGet t (received ρ' A' id) := by
+  rw [glue_preserves ρ hρ A hin, glue_preserves ρ' hρ' A' (fun e he => hin e (hp.mem_iff.mpr he)),
+    find_key_perm id A A' hp hids]
+
+example : (keys ([(0, [1, 2]), (1, [5])] : TopicMap)).Nodup ∧ ∀ l : TopicMap, l.reverse.Perm l :=
+  ⟨by decide, List.reverse_perm⟩
+example : mapGet 1 (received List.reverse [(7, [(0, [1, 2]), (1, [5])]), (8, [(0, [0])])] 7) = some [5] ∧
+    received List.reverse [(7, [(0, [1, 2]), (1, [5])]), (8, [(0, [0])])] 8 = [(0, [0])] ∧
+    received List.reverse [(7, [(0, [1, 2]), (1, [5])]), (8, [(0, [0])])] 9 = [] := by decide
+
+/-- end to end: for partition ids that fit int32, what the members receive is the balancer's assignment function
+on the members `ids` and topics `ts` of the map, and empty elsewhere -/
+theorem glue_delivers (ρ : TopicMap → TopicMap) (hρ : ∀ l, (ρ l).Perm l) (a : Asg) (ids ts : List Nat)
+    (hts : ts.Nodup) (hr : ∀ t id, ∀ x ∈ a t id, InInt32 x) (t id : Nat) :
+    delivered ρ a ids ts t id = if id ∈ ids ∧ t ∈ ts then a t id else [] :=
+  delivered_eq ρ hρ a ids ts hts hr t id
+
+/-- whatever an assignment with cover + only-subscribers hands out are listed partition ids -/
+theorem assigned_are_listed (ms : List Member) (ps : List Part) (a : Asg) (t : Nat)
+    (hg : GoodAt ms ps a t) (ho : ∀ id, OnlySubscribersAt ms a t id) (id : Nat) (x : Int) (hx : x ∈ a t id) :
+    ∃ p ∈ ps, p.id = x := by
+  by_cases hsub : ∃ m ∈ subscribers ms t, m.id = id
+  · obtain ⟨m, hm, hmid⟩ := hsub
+    have hc := hg.1 (List.ne_nil_of_mem hm)
+    have : x ∈ (subscribers ms t).flatMap (fun m => a t m.id) :=
+      List.mem_flatMap.mpr ⟨m, hm, by rw [hmid]; exact hx⟩
+    have := hc.mem_iff.mp this
+    unfold partsOf at this
+    obtain ⟨p, hp, hpx⟩ := List.mem_map.mp this
+    exact ⟨p, (List.mem_filter.mp hp).1, hpx⟩
+  · have := ho id (fun m hm e => hsub ⟨m, hm, e⟩)
+    rw [this] at hx; simp at hx
+
+/-- hence C14 (cover, balance, only subscribers) of the balancer's result carries over to what the members receive -/
+theorem glue_good (ρ : TopicMap → TopicMap) (hρ : ∀ l, (ρ l).Perm l) (ms : List Member) (ps : List Part) (a : Asg)
+    (ids ts : List Nat) (hts : ts.Nodup) (hr : ∀ p ∈ ps, InInt32 p.id)
+    (hids : ∀ m ∈ ms, m.id ∈ ids)
+    (hg : ∀ t, GoodAt ms ps a t) (ho : ∀ t id, OnlySubscribersAt ms a t id) (t : Nat) (ht : t ∈ ts) :
+    GoodAt ms ps (delivered ρ a ids ts) t ∧ ∀ id, OnlySubscribersAt ms (delivered ρ a ids ts) t id := by
+  have hr' : ∀ t id, ∀ x ∈ a t id, InInt32 x := by
+    intro t' id x hx
+    obtain ⟨p, hp, hpx⟩ := assigned_are_listed ms ps a t' (hg t') (ho t') id x hx
+    rw [← hpx]; exact hr p hp
+  have hsame : ∀ m ∈ subscribers ms t, delivered ρ a ids ts t m.id = a t m.id := by
+    intro m hm
+    rw [glue_delivers ρ hρ a ids ts hts hr']
+    simp [hids m (List.mem_filter.mp hm).1, ht]
+  refine ⟨⟨?_, ?_⟩, ?_⟩
+  · intro hs
+    unfold CoverAt
+    rw [flatMap_congr' _ hsame]
+    exact (hg t).1 hs
+  · intro m₁ h₁ m₂ h₂
+    rw [hsame m₁ h₁, hsame m₂ h₂]
+    exact (hg t).2 m₁ h₁ m₂ h₂
+  · intro id hid
+    rw [glue_delivers ρ hρ a ids ts hts hr']
+    split
+    · exact ho t id hid
+    · rfl
+
+/-- Range, RoundRobin and RackAffinity through the glue: C14 holds of what the members receive -/
+theorem range_delivered (ρ : TopicMap → TopicMap) (hρ : ∀ l, (ρ l).Perm l) (ms : List Member) (ps : List Part)
+    (h : WellFormed ms) (ids ts : List Nat) (hts : ts.Nodup) (hr : ∀ p ∈ ps, InInt32 p.id)
+    (hids : ∀ m ∈ ms, m.id ∈ ids) (t : Nat) (ht : t ∈ ts) :
+    GoodAt ms ps (delivered ρ (rangeAssign ms ps) ids ts) t ∧
+      ∀ id, OnlySubscribersAt ms (delivered ρ (rangeAssign ms ps) ids ts) t id :=
+  glue_good ρ hρ ms ps _ ids ts hts hr hids (fun t => ⟨range_cover ms ps h t, range_balanced ms ps h t⟩)
+    (fun t => range_only_subscribers ms ps h t) t ht
+
+theorem rr_delivered (ρ : TopicMap → TopicMap) (hρ : ∀ l, (ρ l).Perm l) (ms : List Member) (ps : List Part)
+    (h : WellFormed ms) (ids ts : List Nat) (hts : ts.Nodup) (hr : ∀ p ∈ ps, InInt32 p.id)
+    (hids : ∀ m ∈ ms, m.id ∈ ids) (t : Nat) (ht : t ∈ ts) :
+    GoodAt ms ps (delivered ρ (rrAssign ms ps) ids ts) t ∧
+      ∀ id, OnlySubscribersAt ms (delivered ρ (rrAssign ms ps) ids ts) t id :=
+  glue_good ρ hρ ms ps _ ids ts hts hr hids (fun t => ⟨rr_cover ms ps h t, rr_balanced ms ps h t⟩)
+    (fun t => rr_only_subscribers ms ps h t) t ht
+
+theorem rack_delivered (ρ : TopicMap → TopicMap) (hρ : ∀ l, (ρ l).Perm l) (ms : List Member) (ps : List Part)
+    (σ₁ σ₂ : Nat → List Nat) (h : WellFormed ms) (h1 : ∀ t, IterOrder ps t (σ₁ t)) (h2 : ∀ t, IterOrder ps t (σ₂ t))
+    (ids ts : List Nat) (hts : ts.Nodup) (hr : ∀ p ∈ ps, InInt32 p.id)
+    (hids : ∀ m ∈ ms, m.id ∈ ids) (t : Nat) (ht : t ∈ ts) :
+    GoodAt ms ps (delivered ρ (rackAsg ms ps σ₁ σ₂) ids ts) t ∧
+      ∀ id, OnlySubscribersAt ms (delivered ρ (rackAsg ms ps σ₁ σ₂) ids ts) t id :=
+  glue_good ρ hρ ms ps _ ids ts hts hr hids
+    (fun t => ⟨rack_cover ms ps σ₁ σ₂ h t (h1 t) (h2 t), rack_balanced ms ps σ₁ σ₂ h t (h1 t) (h2 t)⟩)
+    (fun t => rack_only_subscribers ms ps σ₁ σ₂ h t (h1 t) (h2 t)) t ht
+
+end Glue
 
 end KV.C14
